@@ -105,6 +105,7 @@ func c20Run(p *c20Prog) string {
 		return "setup-failed " + strings.ReplaceAll(err.Error(), " ", "_")
 	}
 	s := NewSched()
+	s.Families = []string{"dc."}
 	s.Probe = true
 	s.ProbeWait = time.Second // every blocking primitive of this code follows a ".wait" yield
 	// every setReadyState call reports through the note "!dc.stored": sample the state right there, so
